@@ -72,6 +72,13 @@ CHECKS = {
         text="TLC checks Ordered/Bounded/PredIsWinners/CalledCertain on every 2-contest scenario (4 predictions x 16x16 draw signs x call/stop lists x both modes) and HistoryIndependent/SizeChecked over all orders/supersets of requested aggregates; configs with the repaired-design switches off reproduce the F3 and F4 counterexamples; 8,000 (80,000) scenarios incl. 3-contest ones are injected on a real model object and the returned triple must be a candidate of the spec; real 3-state client runs are summarised after six request orders (bit-identical summaries, wrong-size dictionary rejected) and checked against their own state table.",
         note="Hard threshold for the bounded/winners clauses; B=2, alpha=0.9 in injected scenarios; non-negative weights.",
     ),
+    "C10": dict(
+        engine="ledger",
+        technique="TLA+ information-flow spec (Interference.tla) model-checked by TLC over all assignments of unit kinds and groups; paired real runs differing in one outstanding/excluded unit's count validated by Trace_Interference (Ledger decides frames and attributable groups, every other row must be bit-identical); historical evaluations with changed hidden results",
+        design_ref="DESIGN.md §5 C10",
+        text="TLC checks NonInterference and HistoricalHidden on the dependency sets computed step by step for 4 units x 2 groups (a leak variant reproduces a counterexample); 36 (400) pairs of real runs per tier, all three estimators, perturb the counted votes of one below-threshold / blocklisted / zero-baseline / unexpected unit (small change and a change crossing its floor, half of the runs with every outstanding unit above 50% expected vote so that the bootstrap clip bounds are active); the trace spec requires bit-identical tokens on every unit row and every group row the unit is not attributable to and exact deltas on its own groups; historical evaluations (nonparametric, gaussian) are run with changed hidden and changed visible historical results.",
+        note="The flow model is an abstraction bound by the paired runs; historical clause not exercised for the bootstrap estimator (the historical client cannot run it on the margin estimand).",
+    ),
     "C11": dict(
         engine="ledger",
         technique="TLA+ spec (LedgerDelta.tla: two-phase ledger with the action AddUnexpected and the Delta predicate over the two terminal states) model-checked by TLC; paired real runs (with / without the extra feed row) validated by Trace_LedgerDelta",
